@@ -628,6 +628,52 @@ func (tm *terms) sext(a smt.Term, from, to int) smt.Term {
 	return smt.Term{S: fmt.Sprintf("((_ sign_extend %d) %s)", to-from, a.S), Sort: smt.BV(to)}
 }
 
+// textWidth returns the bit width of a term given as text, when it can be
+// told from the text or the recorded definitions (0 = unknown).
+func (tm *terms) textWidth(s string) int {
+	if d, ok := tm.defs[s]; ok {
+		var w int
+		if _, err := fmt.Sscanf(d.sort, "(_ BitVec %d)", &w); err == nil {
+			return w
+		}
+		return 0
+	}
+	if strings.HasPrefix(s, "(_ bv") {
+		var v uint64
+		var w int
+		if _, err := fmt.Sscanf(s, "(_ bv%d %d)", &v, &w); err == nil {
+			return w
+		}
+	}
+	if strings.HasPrefix(s, "((_ extract ") {
+		var h, l int
+		if _, err := fmt.Sscanf(s, "((_ extract %d %d)", &h, &l); err == nil {
+			return h - l + 1
+		}
+	}
+	if strings.HasPrefix(s, "(select ") {
+		return 8 // all arrays here are byte arrays
+	}
+	return 0
+}
+
+// concatParts splits "(concat p1 .. pn)" into its parts with widths (most
+// significant first); ok=false if it is not a concat or a width is unknown.
+func (tm *terms) concatParts(s string) ([]string, []int, bool) {
+	op, args, ok := splitApp(s)
+	if !ok || op != "concat" {
+		return nil, nil, false
+	}
+	ws := make([]int, len(args))
+	for i, a := range args {
+		ws[i] = tm.textWidth(a)
+		if ws[i] == 0 {
+			return nil, nil, false
+		}
+	}
+	return args, ws, true
+}
+
 func (tm *terms) extract(a smt.Term, hi, lo int) smt.Term {
 	w := widthOf(a)
 	if lo == 0 && hi == w-1 {
@@ -635,6 +681,36 @@ func (tm *terms) extract(a smt.Term, hi, lo int) smt.Term {
 	}
 	if v, ok := bvConst(a); ok {
 		return lit((v>>uint(lo))&maskOf(hi-lo+1), hi-lo+1)
+	}
+	// extract of a concat on part boundaries: the parts themselves
+	if parts, ws, ok := tm.concatParts(a.S); ok {
+		pos := w
+		var sel []smt.Term
+		okb := true
+		for i, p := range parts {
+			top := pos - 1
+			bot := pos - ws[i]
+			pos = bot
+			if top <= hi && bot >= lo {
+				sel = append(sel, smt.Term{S: p, Sort: smt.BV(ws[i])})
+			} else if !(bot > hi || top < lo) {
+				okb = false // straddles a boundary
+			}
+		}
+		if okb && len(sel) > 0 {
+			return tm.concat(sel)
+		}
+	}
+	// extract of an extract
+	if strings.HasPrefix(a.S, "((_ extract ") {
+		var h, l int
+		if _, err := fmt.Sscanf(a.S, "((_ extract %d %d)", &h, &l); err == nil {
+			inner := strings.TrimSuffix(strings.TrimSpace(a.S[strings.Index(a.S, ")")+1:]), ")")
+			inner = strings.TrimSpace(inner)
+			if iw := tm.textWidth(inner); iw > 0 {
+				return tm.extract(smt.Term{S: inner, Sort: smt.BV(iw)}, l+hi, l+lo)
+			}
+		}
 	}
 	return smt.Term{S: fmt.Sprintf("((_ extract %d %d) %s)", hi, lo, a.S), Sort: smt.BV(hi - lo + 1)}
 }
@@ -651,6 +727,30 @@ func (tm *terms) trunc(a smt.Term, from, to int) smt.Term {
 
 // concat joins parts given most-significant first.
 func (tm *terms) concat(parts []smt.Term) smt.Term {
+	// adjacent extracts of one term: a single extract (or the term itself)
+	if len(parts) > 1 {
+		var merged []smt.Term
+		for _, p := range parts {
+			if n := len(merged); n > 0 {
+				var h1, l1, h2, l2 int
+				a, b := merged[n-1].S, p.S
+				if strings.HasPrefix(a, "((_ extract ") && strings.HasPrefix(b, "((_ extract ") {
+					_, e1 := fmt.Sscanf(a, "((_ extract %d %d)", &h1, &l1)
+					_, e2 := fmt.Sscanf(b, "((_ extract %d %d)", &h2, &l2)
+					ia := strings.TrimSpace(strings.TrimSuffix(strings.TrimSpace(a[strings.Index(a, ")")+1:]), ")"))
+					ib := strings.TrimSpace(strings.TrimSuffix(strings.TrimSpace(b[strings.Index(b, ")")+1:]), ")"))
+					if e1 == nil && e2 == nil && ia == ib && l1 == h2+1 {
+						if iw := tm.textWidth(ia); iw > 0 {
+							merged[n-1] = tm.extract(smt.Term{S: ia, Sort: smt.BV(iw)}, h1, l2)
+							continue
+						}
+					}
+				}
+			}
+			merged = append(merged, p)
+		}
+		parts = merged
+	}
 	if len(parts) == 1 {
 		return parts[0]
 	}
